@@ -1267,7 +1267,7 @@ class TftpFileRequestHandler(_FileRequestHandlerBase, TftpRequestHandler):
         # Unlike HTTP, TFTP may have valid requests that do not start with a
         # forward slash. We want to treat such requests as if they started with
         # a forward slash.
-        if filename.startswith("/") or filename.startswith("%2f"):
+        if filename.startswith("/"):
             return filename
         return "/" + filename
 
